@@ -20,8 +20,8 @@ CHECKS = {
                 text="all native executions of generated programs (incl. many-array programs forcing callee-saved registers) run through a trampoline that seeds and compares machine state",
                 note="System V AMD64 only; memory writes outside arrays/executor observed via canaries and guard pages around arrays and executor"),
     "C18": dict(engine="exec", cat="exploration", tech="runtime differential monitoring of float opcodes: native vs emulator vs independent IEEE reference on structured operand sets",
-                text="bit-exact three-way comparison (native sse/avx, emulation, reference) of all float/double opcodes on structured operands, with the tolerances the statement grants (NaN class, min/max of equal operands)",
-                note="reference uses host IEEE arithmetic in round-to-nearest; generated-C path is covered by C04"),
+                text="bit-exact three-way comparison (native sse/avx, emulation, reference) of all float/double opcodes on structured operands, with the tolerances the statement grants (NaN class, min/max of equal operands); plus the gcc-compiled generated C (backup, Orc-free) and the JIT wrapper of every float single-opcode form on wide finite operands",
+                note="reference uses host IEEE arithmetic in round-to-nearest; generated C of multi-instruction programs is C04's"),
     "C11": dict(engine="asmdump+asmcmp+exec", cat="exploration", tech="runtime monitoring of emitted machine code: objdump disassembly re-assembled by GNU as under the ISA the flags allow, plus native execution under feature-flag subsets",
                 text="every single-opcode program under every SSE/MMX feature subset (plus sampled multi-instruction programs) is compiled; the bytes Orc emitted are disassembled and re-assembled under `.arch` restrictions matching the flags; each subset is also executed against emulation",
                 note="GNU as/objdump are the ISA oracle; 32-bit code is classified but not executed; subsets of this host's features only"),
@@ -29,28 +29,28 @@ CHECKS = {
                 text="listing assembled with GNU as and machine code both disassembled with objdump and compared instruction by instruction (nop padding dropped, branch targets as instruction ordinals) for generated programs x targets x 64/32-bit x jumps x frame pointer x feature subsets",
                 note="no ARM/MIPS cross assembler is installed, so the NEON/MIPS sub-claim is not decided (the statement makes it conditional on one being installed)"),
     "C04": dict(engine="orccgen+orccdrv", cat="exploration", tech="runtime differential monitoring of gcc-compiled generated C (backup and Orc-free forms written by the real orcc) against an independent reference interpreter, plus regeneration of the emulator source",
-                text="every single-opcode form and random int/float/mixed programs go through orcc; the emitted C is compiled with gcc and run as executor-based backup (ORC_CODE=backup) and as Orc-free DISABLE_ORC build; destination bytes with canary margins, accumulators and sources are compared with the reference interpreter; generate-emulation output is token-compared with the checked-in emulator",
+                text="every single-opcode form (~2000) and random int/float/mixed programs go through orcc; the emitted C is compiled with gcc and run as executor-based backup (ORC_CODE=backup) and as Orc-free DISABLE_ORC build; destination bytes with canary margins, accumulators and sources are compared with the reference interpreter; generate-emulation output is token-compared with the checked-in emulator",
                 note="finite float operands only (C18 grants bit-exactness for those); gcc -O2 only; the reference interpreter is tied to emulation by C02"),
     "C06": dict(engine="fault", cat="fault_enumeration", tech="fault injection at the libc boundary (--wrap=mkstemp,ftruncate,mmap) enumerated by call index, ORC_CODE modes and program kinds; results compared with emulation; fd growth and ASan monitors",
                 text="every single failure position (and pairs; thorough: all pairs) of the mkstemp/ftruncate/mmap calls liborc makes, and the permanent failure modes, crossed with ORC_CODE settings, backup registration, code-only executors and three program kinds, each in its own process",
                 note="only the calls code memory uses are failed; malloc failure is not injected"),
     "C07": dict(engine="orccgen+orccdrv+memfn", cat="exploration", tech="end-to-end runtime monitoring of orcc output: generated .orc -> real orcc in 11 option sets -> gcc -> functions called through their prototypes in JIT/backup/emulate/DISABLE_ORC modes and from concurrent threads under TSan, compared with a reference interpreter",
-                text="hundreds (thorough: thousands) of generated functions x 11 orcc configurations x 4 build/run modes called through the generated C prototype with all parameter classes, strides, accumulators, n, m; concurrent first calls under ThreadSanitizer; orcc --test output compiled and run; orc_memcpy/orc_memset against memcpy/memset for all small lengths and alignments; repository .orc corpus compiled in every configuration",
+                text="every eighth batch of the ~2000 single-opcode forms plus random functions (thorough: all) x 11 orcc configurations x 4 build/run modes called through the generated C prototype with all parameter classes, strides, accumulators, n, m; concurrent first calls under ThreadSanitizer; orcc --test output compiled and run; orc_memcpy/orc_memset against memcpy/memset for all small lengths and alignments; repository .orc corpus compiled in every configuration",
                 note="finite float operands only; gcc -O2 only; --inline/--init-function have no Orc-free form"),
     "C08": dict(engine="mt", cat="exploration", tech="ThreadSanitizer-instrumented multi-threaded stress of init/compile/run/take/free with a yield hook injecting delays between critical sections; results compared with emulation",
                 text="many fresh processes per scenario (concurrent orc_init, concurrent compiles on different programs, shared compiled function, take_code/free against compiles, once-guarded first calls) under TSan with randomised delays at the yield hook; report blocks counted and deduplicated, results compared with emulation",
                 note="TSan sees only the interleavings the runs produced; distinct orderings observed are reported in the evidence"),
     "C05": dict(engine="api", cat="exploration", tech="ASan/UBSan-instrumented execution of the compiler on generated valid, invalid and over-limit programs for all targets, with a result-classification monitor and a watchdog",
-                text="about 150k (quick) compiles of valid, mutated and over-limit programs for all eight registered targets and several flag sets under address/UB sanitizers; after every compile the harness checks the three-way result contract and emulates non-fatal programs",
+                text="about 500k (quick) compiles of valid, mutated and over-limit programs for all eight registered targets and several flag sets under address/UB sanitizers; after every compile the harness checks the three-way result contract and emulates non-fatal programs",
                 note="sanitizers see only heap/stack/global red-zone and array-subscript violations; bounded time is restated as a 240 s per-case watchdog"),
     "C13": dict(engine="api", cat="exploration", tech="runtime round-trip monitoring (encode, decode, field comparison, re-encode, differential emulation)",
-                text="tens of thousands of generated programs incl. boundary encodings are serialised and reconstructed; all public fields, the second encoding and emulation results are compared; run with release and ASan builds",
+                text="about 180k (quick) generated programs incl. boundary encodings are serialised and reconstructed; all public fields, the second encoding and emulation results are compared; run with release and ASan builds",
                 note="names are not part of the format; constants compared on their declared width"),
-    "C14": dict(engine="api", cat="exploration", tech="sanitizer-instrumented fuzzing of the parser with structured mutations and directed faults plus an error-record oracle",
-                text="40k (quick) / 400k (thorough) texts of nine kinds parsed under ASan/UBSan; error line numbers, reporting of injected faults at their line, compile and free of every returned program are checked",
-                note="generation based, no coverage feedback; C-string inputs only"),
+    "C14": dict(engine="api", cat="exploration", tech="sanitizer-instrumented fuzzing of the parser: structured generation with mutations and directed faults (gcc ASan/UBSan) plus coverage-guided libFuzzer (clang), both with an error-record oracle",
+                text="300k (quick) / 3M (thorough) texts of nine kinds parsed under ASan/UBSan; error line numbers, reporting of injected faults at their line, compile and free of every returned program are checked",
+                note="C-string inputs only; libFuzzer phase bounded by executions (640k quick, 6.4M thorough)"),
     "C15": dict(engine="api", cat="exploration", tech="runtime equivalence monitoring: independent printer -> parser vs construction API (structure, bytecode)",
-                text="each generated program is rendered three ways (formatting noise, CRLF, literal spellings) and every parse must be error free and equal to the API-built program",
+                text="each generated program is rendered four ways (formatting noise, CRLF, literal spellings, constants as in-place literal operands) and every parse must be error free and equal to the API-built program",
                 note="printer covers integer/hex literal spellings; programs writing a destination twice are outside the text format"),
     "C16": dict(engine="api", cat="exploration", tech="ASan + LeakSanitizer over random legal lifecycle sequences driven by an ownership model, with heap-growth measurement",
                 text="80k random legal lifecycle sequences under ASan, repeated under LeakSanitizer in three environments, plus a K/4K iteration heap growth comparison",
@@ -59,7 +59,7 @@ CHECKS = {
                 text="every program compiled twice with different code-memory history and placement, after reset, and in fresh processes under three debug levels; bytes, listing and result compared for all eight targets",
                 note="names fixed by the harness; run repeatability is observed under C01"),
     "C20": dict(engine="api", cat="exploration", tech="runtime monitoring of extension registration scenarios (call counters, rule identity log, before/after snapshots) in fresh processes",
-                text="32 (quick) / 96 (thorough) registration scenarios x 2 builds, each in its own process: extension opcodes emulated and natively compiled against their own reference, rule precedence logged, built-in programs compared before/after",
+                text="32 (quick) / 96 (thorough) registration scenarios x 2 builds, each in its own process: extension opcode sets (incl. set names extending 'sys' or an earlier set) emulated and natively compiled against their own reference, rule sets with satisfied/unsatisfied/mixed required flags, rule precedence logged, built-in programs compared before/after",
                 note="rules registered for sse only"),
     "C09": dict(engine="codemem", cat="exploration", tech="runtime invariant monitoring of the code-memory allocator through a walk hook under its own lock, against a shadow model; exhaustive alloc/free sequences plus random real histories",
                 text="all alloc/free sequences to depth 6 (thorough: 7) over six sizes, and long random compile/take_code/free/re-execute histories, with structural, overlap, reuse and byte/result-stability invariants checked after every step",
